@@ -7,6 +7,7 @@ package main
 import (
 	"fmt"
 	"os"
+	"strconv"
 	"strings"
 
 	"github.com/hneemann/parser2/value"
@@ -130,6 +131,15 @@ func c01Sweep() []string {
 				res = append(res, strings.ReplaceAll(form, "@L", recv+st))
 			}
 		}
+	}
+	// numbers by kind and value through the built-ins a program combines them with (ties between an int and a float of the
+	// same value, results at the int/float border, documented special arguments)
+	for _, src := range []string{"[2, 2.0].max()", "[2.0, 2].max()", "[2, 2.0].min()", "[2.0, 2, 1.0, 1].min()", "[a, a * 1.0, a + 0].max()", "[1, 2.0, 3].sum()", "[1, 2, 3].sum()", "[1.0, 2, 3].reduce((p, q) -> p + q)",
+		"[3, 1.0, 2].order(e -> e).string()", "[2, 2.0, 1].minMax(e -> e).max", "max(a, a * 1.0)", "max(a * 1.0, a)", "min(2, 2.0, 1.0, 1)", "abs(0 - a) + abs(0.0 - a)", "[1, 2].map(e -> e / 1).string()", "(a + 1) / 2", "(a + 1.0) * 2",
+		"7 / 2", "8 / 2", "2 ^ 3", "2 ^ 0.5 * 2 ^ 0.5", "int(2.0) + int(a)", "float(a) + 1", "[1, 2, 3].mean()", "[a, a].mean()", "\"key:value\".cut(4, 0 - 1)", "\"key:value\".cut(4, 0)", "\"key:value\".cut(0, 3)", "\"key:value\".cut(20, 1)",
+		"\"abc\".cut(1, 100)", "[1, 2, 3].top(0 - 1).size()", "[1, 2, 3].skip(0 - 1).size()", "numbers(0).size() + numbers(0 - 3).size()", "[2.5, 1].sum() = 3.5", "[1, 1.0] = [1.0, 1]", "{k: 1} = {k: 1.0}", "1 = 1.0", "(1 + a) = (1.0 + a)",
+		"[1, 2.0, \"3\"].map(e -> e.string()).string()", "1.0.string() + 2.string() + (0.1 + 0.2).string()"} {
+		res = append(res, src)
 	}
 	// nested forcing: a lazy list is forced from inside a closure of another lazy list that is being forced, behind a
 	// let of that closure (whatever the forcing operation needs, e.g. a scratch stack, must not be the one in use)
@@ -342,6 +352,37 @@ func runC01(c *Ctx) {
 				c.Count("throw-text:" + strings.SplitN(out, " ", 2)[0])
 				if out != "OK b1" {
 					c.Violation("thrown-text-lost", "the text passed to throw does not reach the catch handler ("+mode+")", map[string]any{"program": src, "outcome": out, "mode": mode})
+				}
+			}
+		}
+	}
+	// number literals denote their decimal value: an int if it fits, a float otherwise (leading zeros do not change the base)
+	{
+		fgN := newValueFG(true)
+		lits := []string{"0", "00", "7", "007", "010", "0100", "08", "09", "0123", "1", "10", "99", "123456789012345678", "9223372036854775807", "9223372036854775808", "18446744073709551616", "0.5", "00.5",
+			"1.5", "010.5", "1.0", "2.50", "1e3", "1e-3", "1.5e+3", "1.5e3", "0e0", "1e0", "12e2", "0.001", "100.000", "3.14159", "1e10", "1e18", "1e19", "2e308"}
+		for _, l := range lits {
+			var want string
+			allDigits := strings.Trim(l, "0123456789") == ""
+			if i, err := strconv.ParseInt(l, 10, 64); allDigits && err == nil {
+				want, _ = canonValue(value.Int(i))
+			} else if f, err := strconv.ParseFloat(l, 64); err == nil || allDigits {
+				want, _ = canonValue(value.Float(f))
+			} else {
+				want = "?"
+			}
+			for _, form := range []string{"%s", "a + %s - a", "[%s][0]"} {
+				src := fmt.Sprintf(form, l)
+				got := evalOutcome(fgN, src, []string{"a"}, []value.Value{value.Int(0)})
+				c.Case("number-literal|"+src, true)
+				c.Count("number-literal")
+				// a literal the language does not accept at all (an exponent form it does not know, an overflowing float) is not a verdict
+				if got == "GENERR" || got == "ERR" || want == "?" {
+					c.Count("number-literal:not-accepted")
+					continue
+				}
+				if form == "%s" && got != "OK "+want {
+					c.Violation("number-literal-value", fmt.Sprintf("the literal %s denotes %s, its decimal value is %s", l, got, want), map[string]any{"program": src, "outcome": got, "decimal_value": want})
 				}
 			}
 		}
